@@ -69,9 +69,10 @@ auth.backend.plain.userfile = "@ROOT@/users.txt"
 auth.require = ("/auth/" => ("method" => "basic", "realm" => "c08", "require" => "valid-user"))
 setenv.add-response-header = ("X-Global" => "g")
 setenv.add-environment = ("GLOBAL_ENV" => "genv")
-deflate.allowed-encodings = ("gzip")
+deflate.allowed-encodings = ("gzip", "deflate")
 deflate.mimetypes = ("text/plain")
 deflate.min-compress-size = 64
+deflate.cache-dir = "@ROOT@/deflcache"
 $HTTP["host"] == "vhost.test" {
     server.document-root = "@ROOT@/vhost"
     setenv.add-response-header = ("X-Vhost" => "1")
@@ -191,6 +192,7 @@ def build_site(srv):
         put(os.path.join(srv.root, "vhost"), rel, data)
     for rel, data in ALIAS_FILES.items():
         put(os.path.join(srv.root, "aliased"), rel, data)
+    os.makedirs(os.path.join(srv.root, "deflcache"), exist_ok=True)
     with open(os.path.join(srv.root, "users.txt"), "w") as f:
         f.write("alice:wonderland\nbob:builder\n")
 
@@ -320,6 +322,14 @@ PROBES = [
     Req("GET", "/files/sub/c.css"),
     Req("GET", "/cgi/env.pl?lredir=1"),
     Req("GET", "/files/page.html", [("If-None-Match", "*")], tag="GET page.html inm-star"),
+    Req("GET", "/files/a.txt", [("Accept-Encoding", "deflate")], tag="GET a.txt deflate"),
+    Req("GET", "/files/a.txt", [("Accept-Encoding", "deflate, gzip;q=0.5")], tag="GET a.txt deflate-pref"),
+    Req("GET", "/files/a.txt", [("Range", "bytes=0-3"), ("If-Range", "\"stale-validator\"")], tag="GET a.txt if-range-stale"),
+    Req("GET", "/files/a.txt", [("Range", "bytes=0-3"), ("If-Range", "Tue, 14 Nov 2023 22:13:20 GMT")],
+        tag="GET a.txt if-range-date"),
+    Req("GET", "/files/b.txt", [("If-Match", "\"nomatch\""), ("If-Unmodified-Since", "Tue, 14 Nov 2023 22:13:20 GMT")],
+        tag="GET b.txt if-match"),
+    Req("GET", "/eh2/present.txt", [("Accept-Encoding", "gzip")], tag="GET eh2 present gzip"),
 ]
 
 # history-only requests (never compared themselves; they dirty the connection / request objects)
@@ -357,6 +367,11 @@ def _hist_pool():
                  tag="h:cookies-xff"))
     H.append(Req("GET", "/files/b.txt?flag=1", [("X-Forwarded-For", "10.9.8.7"), ("X-Forwarded-Proto", "https")],
                  tag="h:xff-proto-https"))
+    H.append(Req("POST", "/eh2/missing-post", [("Content-Type", "text/plain")], body=b"k=v&" * 12, tag="h:post-eh2-missing"))
+    H.append(Req("POST", "/eh2/missing-post?flag=1", body=b"GET /files/b.txt HTTP/1.1\r\nHost: c08.test\r\nX-Variant: b\r\n\r\n",
+                 tag="h:post-eh2-body-spells-request"))
+    H.append(Req("POST", "/eh2/missing-chunked", body=b"chunk " * 9, chunked=True, tag="h:post-eh2-chunked"))
+    H.append(Req("POST", "/eh/missing-post", body=b"to the 404 handler", tag="h:post-eh-404handler"))
     H.append(Req("PUT", "/files/new.txt", body=b"put body", tag="h:put"))
     H.append(Req("GET", "/files/b.txt", [("If-None-Match", "*"), ("Range", "bytes=0-0"), ("X-Variant", "b")], tag="h:inm-star"))
     H.append(Req("GET", "/noka/k.txt", tag="h:noka"))
@@ -420,6 +435,26 @@ class H1Client:
             if not d:
                 self.closed = True
             self.buf += d
+
+    def unsolicited(self, n, wait=0.06):
+        """number of complete final responses beyond the n that were asked for (response desync)"""
+        end = time.time() + wait
+        while not self.closed and time.time() < end:
+            self.s.settimeout(max(0.01, end - time.time()))
+            try:
+                d = self.s.recv(1 << 16)
+            except socket.timeout:
+                break
+            except OSError:
+                d = b""
+            if not d:
+                self.closed = True
+            self.buf += d
+        try:
+            rs = e2e.parse_responses(self.buf, head_for=self.heads, closed=self.closed)
+        except e2e.RespParseError:
+            return 0
+        return max(0, len([r for r in rs if r["status"] >= 200 or r["status"] == 101]) - n)
 
     def close(self):
         try:
@@ -596,7 +631,7 @@ def obs_key(o, cross=False):
         bk = "env:" + json.dumps(b)
     else:
         bk = "raw:%d:%s" % (len(b), hashlib.sha256(b).hexdigest()[:20])
-    return json.dumps([o["status"], hs, bk, o["complete"]])
+    return json.dumps([o["status"], hs, bk, o["complete"], o.get("unsolicited", 0)])
 
 
 def obs_diff(a, b, cross=False):
@@ -625,6 +660,8 @@ def obs_diff(a, b, cross=False):
         out.append("body differs (%s vs %s bytes)" % (len(ba), len(bb)))
     if a["complete"] != b["complete"]:
         out.append("completeness %s vs %s" % (a["complete"], b["complete"]))
+    if a.get("unsolicited", 0) != b.get("unsolicited", 0):
+        out.append("unsolicited extra responses on the connection: %s vs %s" % (a.get("unsolicited", 0), b.get("unsolicited", 0)))
     return "; ".join(out[:8])
 
 
@@ -658,11 +695,14 @@ def diff_classes(a, b, cross=False):
         out.append("body")
     if a["complete"] != b["complete"]:
         out.append("complete")
+    if a.get("unsolicited", 0) != b.get("unsolicited", 0):
+        out.append("unsolicited-response")
     return out or ["same"]
 
 
-def h1_obs(resp, srv):
-    return make_obs(resp["status"], resp["headers"], resp["body"], srv)
+def h1_obs(resp, srv, unsolicited=0):
+    return make_obs(resp["status"], resp["headers"], resp["body"], srv,
+                    extra={"unsolicited": unsolicited} if unsolicited else None)
 
 
 def h2_probe_obs(c, st, sid, srv, mode):
@@ -729,7 +769,7 @@ def h1_history(srv, ver, hist, log):
             c.close()
             c = None
             continue
-        r = rs[-1]
+        r = rs[n - 1]
         cl = (e2e.hdr(r, "connection") or b"").lower()
         log.append("%s: %d%s" % (q.tag, r["status"], " close" if (b"close" in cl or c.closed) else ""))
         if b"close" in cl or c.closed or (ver == 0 and b"keep-alive" not in cl):
@@ -763,10 +803,12 @@ def h1_case(srv, case, log):
         c.heads.append(q.is_head())
         c.send(data, nseg)
         rs, err = c.read(len(c.heads))
-        c.close()
         if len(rs) < len(c.heads):
+            c.close()
             raise Unanswered("pipelined: %d of %d responses (%s)" % (len(rs), len(c.heads), err))
-        return h1_obs(rs[-1], srv)
+        extra = c.unsolicited(len(c.heads)) if any(h.body is not None for h in hist) else 0
+        c.close()
+        return h1_obs(rs[len(c.heads) - 1], srv, extra)
     elif mode == "otherconn":
         c = H1Client(srv.port)
         data = q.h1(ver)
@@ -787,10 +829,12 @@ def h1_case(srv, case, log):
     _h1_send_req(c, q, ver, nseg)
     n = len(c.heads)
     rs, err = c.read(n)
-    c.close()
     if len(rs) < n:
+        c.close()
         raise Unanswered("%s: probe unanswered (%s)" % (mode, err))
-    return h1_obs(rs[-1], srv)
+    extra = c.unsolicited(n) if mode == "keepalive" and any(h.body is not None for h in hist) else 0
+    c.close()
+    return h1_obs(rs[n - 1], srv, extra)
 
 
 def h2_history(srv, hist, log, c=None):
@@ -949,7 +993,7 @@ def _kv(pairs):
 
 DEFAULT_OPTS = 9567
 OPTSETS = [9567, 9567, 9567, 0, 1, 1 | 2 | 4, 8 | 16, 1 | 8 | 32 | 64, 0x8000 | 1 | 8 | 16 | 64]
-RST_OPS = ["reset", "resetex", "release", "h2init", "conreset", "ex", "respreset", "bodyclear0", "bodyclear1", "none"]
+RST_OPS = ["reset", "resetex", "release", "h2init", "conreset", "kaend", "ex", "respreset", "bodyclear0", "bodyclear1", "none"]
 RECYCLE_OPS = ["resetex", "release", "h2init", "reset", "conreset"]
 
 H1_DIRTY_VALID = [
@@ -1026,8 +1070,8 @@ def spec_pool(rng, pooled):
     k = rng.choice(["parse1", "parse1", "parse2", "m", "v", "st", "state", "hm", "uc", "qh", "host", "rbl", "qhl", "tgt",
                     "to", "usch", "uauth", "upath", "uq", "pp", "pbig", "pb", "pd", "pr", "pi", "snb", "sn", "env", "rh",
                     "rh", "rhi", "wq", "bq", "rdq", "fin", "started", "chunked", "dechunk", "rep", "gw", "loops", "ka",
-                    "async", "ehs", "ehm", "ext", "sp", "rhl", "tec", "civ", "cc", "po", "mrfs", "srb"]
-                   + (["h2r.po", "h2r.civ", "h2r.cc", "h2r.sn"] if pooled else []))
+                    "async", "ehs", "ehm", "ext", "sp", "rhl", "tec", "civ", "cc", "po", "mrfs", "srb", "dst", "cm"]
+                   + (["h2r.po", "h2r.civ", "h2r.cc", "h2r.sn", "h2r.cm"] if pooled else []))
     if k == "parse1":
         return "parse1=%d:%s" % (rng.choice(OPTSETS), _hx(rng.choice(H1_DIRTY_VALID)))
     if k == "parse2":
@@ -1104,6 +1148,10 @@ def spec_pool(rng, pooled):
         return "srb=%d" % rng.choice([1, 2, 0x8000])
     if k == "h2r.sn":
         return "h2r.sn=buf"
+    if k == "dst":
+        return "dst=0"
+    if k in ("cm", "h2r.cm"):
+        return "%s=%d" % (k, rng.randint(0, 1))
     raise KeyError(k)
 
 
@@ -1120,10 +1168,10 @@ def parse_dump(out):
 # by the next request, or is bookkeeping):  cond cache + validity (response.c / connection accept),
 # state (callers), server_name_buf ("reset when used"), physical.doc_root/basedir when physical.path was
 # never allocated (cleared again in http_response_prepare), reset-hook call counter
-PERSIST_OK = {"civ", "cc", "snb", "pd", "pb", "rc", "state"}
+PERSIST_OK = {"civ", "cc", "snb", "pd", "pb", "rc", "state", "cm"}      # cm: regex captures, re-matched before use
 PERSIST_OK_RESET_ONLY = {"uauth", "upath", "uq", "to", "sn", "pr"}       # kept for mod_status until request_reset_ex()
-PERSIST_OK_H1 = {"rdq"}      # h1: r->read_queue is the connection's queue and may hold the next (pipelined) request
-INHERITED_H2 = {"civ", "cc", "po", "sn", "conf"}
+PERSIST_OK_H1 = {"rdq", "dst"}      # dst: r->dst_addr(_buf) are restored by mod_extforward's own reset hook, not by request_reset()      # h1: r->read_queue is the connection's queue and may hold the next (pipelined) request
+INHERITED_H2 = {"civ", "cc", "po", "sn", "conf", "cm"}
 
 
 class ResetOracle:
@@ -1145,17 +1193,30 @@ class ResetOracle:
         if t[0] != "rst" or out in ("skip", "bad-op", "<crash>"):
             return None
         op = t[1]
-        if op not in ("reset", "resetex", "release", "h2init", "conreset"):
+        if op not in ("reset", "resetex", "release", "h2init", "conreset", "kaend"):
             return None
         d = parse_dump(out)
-        if d.get("rc") != "11":
+        if d.get("rc") != "110":
             return "request reset did not call every module's handle_request_reset hook exactly once"
+        # the harness' third module has no reset hook: its slot legitimately survives (request_reset() does not
+        # clear plugin_ctx[] itself); slots of modules WITH a hook must be empty
+        if len(d.get("pctx", "")) == 4:
+            if d["pctx"][3] != ("1" if any(x == "uc=1" for x in t[2:]) else "0"):
+                return "plugin_ctx slot of a module without reset hook changed by the reset functions"
+            d["pctx"] = d["pctx"][:3] + "0"
         base = self.base_h2 if op == "h2init" else self.base
         allow = set(PERSIST_OK)
-        if op in ("reset", "conreset"):
+        if op in ("reset", "conreset", "kaend"):
             allow |= PERSIST_OK_RESET_ONLY
-        if op in ("reset", "conreset", "resetex"):
+        if op in ("reset", "conreset", "resetex", "kaend"):
             allow |= PERSIST_OK_H1
+        if op == "kaend":
+            # accounting checkpoints of the next keep-alive request: bytes_written_ckpt / bytes_read_ckpt
+            allow |= {"x", "state"}
+            rdq = d.get("rdq", "0:0:0").split(":")
+            wq = d.get("wq", "0:0:0").split(":")
+            if d.get("x") != "%s:%s:0" % (wq[2], rdq[1]) or d.get("state") != "1":
+                return "keep-alive checkpoints / state after connection_handle_response_end_state() are wrong"
         if op in ("release", "h2init"):
             allow.discard("state")
             if out.startswith("same=0"):
@@ -1174,6 +1235,11 @@ class ResetOracle:
                     i, a, b = tok.split("=", 1)[1].split(":")
                     cc[int(i)] = "%s:%s" % (a, b)
             want["cc"] = ",".join(cc)
+            cm = ["n"] * len(base.get("cm", ""))
+            for tok in t[2:]:
+                if tok.startswith("h2r.cm="):
+                    cm[int(tok.split("=", 1)[1])] = "h"
+            want["cm"] = "".join(cm)
             for k, v in want.items():
                 if d.get(k) != v:
                     return "HTTP/2 stream does not inherit %s from the connection request" % k
@@ -1212,7 +1278,7 @@ def gen_rst(ctx):
             lines.append("rst %s %s" % (op, s))
     n = 16000 if ctx.quick else 250000
     for _ in range(n):
-        op = rng.choice(RST_OPS[:5] * 3 + RST_OPS)
+        op = rng.choice(RST_OPS[:6] * 3 + RST_OPS)
         pooled = op in ("release", "h2init")
         k = rng.choice([2, 2, 3, 4, 6, 9, 14])
         toks = [spec_pool(rng, pooled) for _ in range(k)]
@@ -1269,6 +1335,10 @@ def gen_rp(ctx):
         if not h2 and b"[" in blk:
             nskip += 1          # IPv6-literal hosts are not modelled (inet_pton), as in C01
             continue
+        if not h2 and re.search(rb"(?i)transfer-encoding[ \t]*:[ \t]*\r?\n(?![ \t])", blk):
+            ctx.dist["rp:skipped-empty-transfer-encoding"] += 1   # C01's shared parser model (400) and /repo HEAD
+            continue                                               # (field ignored) disagree: C01's business, reported
+
         lines.append("rp %s %d %s %s ; %s" % ("h2" if h2 else "h1", opts, op, " ".join(toks), probe))
     ctx.dist["rp:skipped-ipv6-literal-host"] = nskip
     return lines
@@ -1363,6 +1433,8 @@ def gen_cases(ctx):
     for h in ALL_REQS:
         cases.append(dict(ver=1, mode="keepalive", hist=[h], probe=envp))
         cases.append(dict(ver=2, mode="sequential", hist=[h], probe=envp))
+        if h.abort is None:
+            cases.append(dict(ver=1, mode="pipelined", hist=[h], probe=envp))
     if ctx.quick:
         # the upgrade path for a few fixed probes in every run
         for pi in (1, 25, 13):
@@ -1488,6 +1560,51 @@ def model_msg(q, ver):
     return _hx(q.h1(ver))
 
 
+def decoding_problem(o, q):
+    """independent check of a coded representation: the body must decode, under the declared
+    Content-Encoding, to the file the request names"""
+    import zlib
+    if o is None or o["status"] != 200 or not isinstance(o["body"], bytes):
+        return None
+    ce = [v for k, v in o["headers"] if k == "content-encoding"]
+    if not ce:
+        return None
+    rel = q.target.split("?")[0].lstrip("/")
+    want = (VHOST_FILES if q.authority == "vhost.test" else SITE_FILES).get(rel)
+    if want is None:
+        return None
+    try:
+        if ce[0] == "gzip":
+            got = zlib.decompress(o["body"], 16 + 15)
+        elif ce[0] == "deflate":
+            try:
+                got = zlib.decompress(o["body"])
+            except zlib.error:
+                got = zlib.decompress(o["body"], -15)
+        else:
+            return None
+    except zlib.error as ex:
+        return "body is not valid %s data (%s)" % (ce[0], ex)
+    return None if got == want else "decoded %s body differs from the file" % ce[0]
+
+
+def cold_job(bd, items):
+    """each probe as the very first request a fresh server process (empty caches, new objects) ever sees"""
+    out = []
+    for pi, ver in items:
+        srv = new_server(bd)
+        try:
+            with srv:
+                o, log, note = run_case(srv, dict(ver=ver, mode="alone", hist=[], probe=PROBES[pi]))
+            out.append((pi, ver, o, note, srv.sanitizer_report()))
+        except Exception as ex:
+            out.append((pi, ver, None, "server error %r" % (ex,), None))
+        finally:
+            import shutil
+            shutil.rmtree(srv.root, ignore_errors=True)
+    return out
+
+
 def server_job(bd, jobs, seqs, quick):
     """one server process: references for every probe, then its shard of cases and of modelled sequences"""
     res = {"cases": [], "refs": {}, "seqs": [], "san": None, "error": None, "closing": {}}
@@ -1557,8 +1674,12 @@ def run_e2e(ctx):
     nsrv = min(12, C.NCPU)
     shards = [cases[i::nsrv] for i in range(nsrv)]
     sshards = [seqs[i::nsrv] for i in range(nsrv)]
+    cold_items = [(pi, 1) for pi in range(len(PROBES))]
+    if not ctx.quick:
+        cold_items += [(pi, v) for pi in range(len(PROBES)) for v in (0, 2)]
     with ThreadPoolExecutor(nsrv) as ex:
         results = list(ex.map(lambda a: server_job(bd, a[0], a[1], ctx.quick), zip(shards, sshards)))
+        colds = [x for part in ex.map(lambda it: cold_job(bd, it), [cold_items[i::nsrv] for i in range(nsrv)]) for x in part]
     ncase = nun = nhist_sig = 0
     seen_sig = set()
     for si, res in enumerate(results):
@@ -1644,6 +1765,51 @@ def run_e2e(ctx):
                                    "differs_in": dc, "diff": obs_diff(ref, o)})
             if len(ctx.samples) < 6 and ncase % 97 == 1:
                 ctx.sample({"stream": "e2e-metamorphic", "case": case_desc(case), "status": o["status"]})
+    # cold start: the probe as the first request a server ever sees == the probe on a server that has
+    # already answered everything else (server-wide state: caches on disk, stat cache, recycled objects)
+    warm = next((r["refs"] for r in results if not r["error"]), None)
+    for pi, ver, o, note, san in colds:
+        ctx.evaluations += 1
+        ctx.keys["cold:%d:%s" % (ver, "none" if o is None else o["status"])] += 1
+        if san:
+            ctx.violation("e2e:sanitizer", "sanitizer / assertion report from lighttpd (cold start)",
+                          {"property": ctx.pid, "kind": "sanitizer-or-crash", "correspondence": "e2e-cold",
+                           "report": san[-3000:]}, found=True)
+        q = PROBES[pi]
+        dp = decoding_problem(o, q)
+        if dp and ("dec:" + dp[:20]) not in seen_sig:
+            seen_sig.add("dec:" + dp[:20])
+            ctx.violation("e2e:content-coding:%s" % dp[:30], "%s: %s" % (q.tag, dp),
+                          {"property": ctx.pid, "kind": "e2e-cold", "probe": q.tag, "probe_idx": pi, "ver": ver, "problem": dp})
+        if warm is None or o is None:
+            if o is None and warm is not None and warm[(pi, ver)][0] is not None:
+                ctx.violation("e2e:cold-unanswered", "no response to the first request of a fresh server (%s)" % note,
+                              {"property": ctx.pid, "kind": "e2e-cold", "probe": q.tag, "probe_idx": pi, "ver": ver})
+            continue
+        w = warm[(pi, ver)][0]
+        if w is not None and obs_key(o) != obs_key(w):
+            for dc in diff_classes(o, w):
+                sig = "e2e:server-state:%s" % dc
+                if sig in seen_sig:
+                    continue
+                seen_sig.add(sig)
+                ctx.violation(sig, "the answer depends on what the server process handled before (first request of a "
+                              "fresh server vs same request after other traffic; differs in %s): %s" % (dc, obs_diff(o, w)),
+                              {"property": ctx.pid, "kind": "e2e-cold", "probe": q.tag, "probe_idx": pi, "ver": ver,
+                               "differs_in": dc, "diff": obs_diff(o, w)})
+    ctx.streams.append({"name": "e2e-cold-start(real server)", "cases": len(colds)})
+    # content codings of the warm references and of every case decode to the named file
+    for res in results:
+        if res["error"]:
+            continue
+        obs = [(PROBES[k[0]], v[0]) for k, v in res["refs"].items()] + [(c["probe"], o) for c, o, _, _ in res["cases"]]
+        for q, o in obs:
+            dp = decoding_problem(o, q)
+            if dp and ("dec:" + dp[:20]) not in seen_sig:
+                seen_sig.add("dec:" + dp[:20])
+                ctx.violation("e2e:content-coding:%s" % dp[:30], "%s: %s" % (q.tag, dp),
+                              {"property": ctx.pid, "kind": "e2e-cold", "probe": q.tag, "probe_idx": PROBES.index(q),
+                               "ver": 1, "problem": dp})
     # references must also agree between server processes (first-ever connections included)
     first = None
     for res in results:
@@ -1749,6 +1915,20 @@ def replay(ctx, path):
     if kind in ("correspondence", "property-oracle", "sanitizer-or-crash") and str(rep.get("input", "")).startswith(("rst", "rp")):
         ctx.lean(())
         return replay_line(ctx, rep)
+    if kind == "e2e-cold":
+        bd, err = e2e.build_server()
+        q = PROBES[rep["probe_idx"]]
+        cold = cold_job(bd, [(rep["probe_idx"], rep.get("ver", 1))])[0][2]
+        srv = new_server(bd)
+        with srv:
+            for p2 in PROBES:
+                run_case(srv, dict(ver=rep.get("ver", 1), mode="alone", hist=[], probe=p2))
+            warm, _, _ = run_case(srv, dict(ver=rep.get("ver", 1), mode="alone", hist=[], probe=q))
+        print("cold vs warm:", obs_diff(cold, warm) or "(equal)", "| decoding:", decoding_problem(cold, q), decoding_problem(warm, q))
+        if obs_key(cold) != obs_key(warm) or decoding_problem(cold, q) or decoding_problem(warm, q):
+            print("VIOLATION property=%s replay=(replayed)" % ctx.pid)
+            return 1
+        return 0
     if kind in ("e2e-metamorphic", "e2e-cross-version"):
         bd, err = e2e.build_server()
         if bd is None:
